@@ -113,7 +113,11 @@ def run(prop: str, tier: str, seed: int) -> int:
             user_lb = max(0, best - rng.choice([0, 0, 1, rng.randint(0, max(1, best))]))
             mult = rng.choice([1, 1, 2, 7])
         try:
-            inst = ts.mods()["Instance"]("v", user_lb, np.array(M, dtype=rng.choice(cand)), mult)
+            src = np.array(M, dtype=rng.choice(cand))
+            inst = ts.mods()["Instance"]("v", user_lb, src, mult)
+            # the constructor copies the matrix: what the caller does with his own array afterwards (here: he
+            # overwrites it, as when the buffer is reused for the next instance) must not reach the instance
+            src[:, :] = src.T.copy() + 1 if rng.random() < 0.5 else 0
         except (ValueError, TypeError) as ex:
             rep.violations.append(core.Verdict(f"rand-{k}", "constructor-rejects-valid-matrix",
                                                {"M": [[big(v) for v in r] for r in M], "user_lb": user_lb,
